@@ -791,6 +791,15 @@ class revert_intro(Method):
         assert item.rule == 'intros' and len(item.prevs) >= 2 and \
             item.prevs[-1] == id and item.prevs[-2] == prevs[0], \
             "revert_intro: can only revert the last assumption of the enclosing intros"
+        # No other line may depend on the assumption that is removed.
+        def cited(prf):
+            for other in prf.items:
+                if other is not item and prevs[0] in other.prevs:
+                    return True
+                if other.subproof and cited(other.subproof):
+                    return True
+            return False
+        assert not cited(state.prf), "revert_intro: assumption is used by another line"
         state.set_line(id, 'sorry', th=Thm.implies_intr(pt.th.prop, cur_item.th))
         item = state.get_proof_item(id.incr_id(1))
         state.set_line(id.incr_id(1), item.rule, args=item.args,
